@@ -285,3 +285,33 @@ func RunNative(path string, harnesses map[string]func()) int {
 	}
 	return rc
 }
+
+// ---- parameters and native fixtures ----
+
+type ParamKV struct {
+	Key string
+	Val interface{}
+}
+
+var pendingParams []ParamKV
+
+// Param provides the value of a module parameter. Engine: recorded in the parameter table that
+// the (types.Subspace) accessors are intercepted to read. Native: queued; the package's native
+// environment writes the queue through the real Subspace.Set.
+func Param(key string, val interface{}) { pendingParams = append(pendingParams, ParamKV{key, val}) }
+
+// PendingParams returns and clears the queued parameters (native environments only).
+func PendingParams() []ParamKV {
+	p := pendingParams
+	pendingParams = nil
+	return p
+}
+
+var testingT interface{}
+
+// SetT / T hand the *testing.T of the replay test to native environments.
+func SetT(t interface{}) { testingT = t }
+func T() interface{}     { return testingT }
+
+// Native reports whether the harness runs natively (false inside the engine).
+func Native() bool { return true }
